@@ -4,5 +4,5 @@
 cd "$(dirname "$0")/../spec" || exit 2
 OUT="${TMPDIR:-/tmp}/apalache_workspace.$$"
 timeout 600 apalache-mc check --out-dir="$OUT" --cinit=ConstInit --init=Init --inv=IndInv --length=0 Apa_Workspace.tla | tail -3
-timeout 1800 apalache-mc check --out-dir="$OUT" --cinit=ConstInit --init=IndInit --inv=IndInv --length=1 Apa_Workspace.tla | tail -3
+timeout 1800 apalache-mc check --out-dir="$OUT" --cinit=ConstInit --init=IndInit --next=NextL --inv=IndInv --length=1 Apa_Workspace.tla | tail -3
 rm -rf "$OUT"
